@@ -367,9 +367,11 @@ def report(c, scripts, results, viol, ctxd, trace_path):
                     what += " (a MergeSplit had returned the emptied remainder of the request as a last part; its callback was counted on it)"
             else:
                 what = head + ": " + json.dumps(v["detail"])[:300]
-            seen[key] = seen.get(key, 0) + 1
-            if seen[key] > 2 or len(c.violations) >= 16:
-                if sig is None or c.match_finding(sig) is None:
+            # report volume: at most 2 violations per (clause, signal, sizer) and piece, 16 in all -- counted among those that
+            # no open finding explains, so that the abundant known ones can never crowd a new one out
+            if sig is None or c.match_finding(sig) is None:
+                seen[key] = seen.get(key, 0) + 1
+                if seen[key] > 2 or len(c.violations) >= 16:
                     continue
             c.violation(what, replay_obj=dict(script=s, clause=cl, line=v["line"],
                                               observed=lines[script_start(v["line"]):v["line"]][-200:]), signature=sig)
